@@ -22,17 +22,37 @@ __CPROVER_assigns();
 static inline void mzd_xor_bits(mzd_t *M, rci_t const x, rci_t const y, int const n, word values)
 __CPROVER_requires(BITS_IN(M, x, y, n))
 __CPROVER_assigns();
+#ifndef VP_GHOST_INDEX
 static inline void mzd_clear_bits(mzd_t *M, rci_t const x, rci_t const y, int const n)
 __CPROVER_requires(BITS_IN(M, x, y, n))
 __CPROVER_assigns();
 static inline void mzd_write_bit(mzd_t *M, rci_t const row, rci_t const col, BIT const value)
 __CPROVER_requires(BITS_IN(M, row, col, 1))
 __CPROVER_assigns();
+#else
+/* ghost-index family (S.mzd_echelonize_pluq.full0): vg_qi is an arbitrary row index, never constrained by the harness.  A fact
+ * about permutation entries is available for entry vg_qi only (contract of mzd_ple below), so the column range of mzd_write_bit
+ * is demanded for row vg_qi -- for an arbitrary vg_qi that is every row.  vg_cleared counts the cells cleared in row vg_qi. */
+extern int vg_qi;
+extern long vg_cleared;
+static inline void mzd_clear_bits(mzd_t *M, rci_t const x, rci_t const y, int const n)
+__CPROVER_requires(BITS_IN(M, x, y, n))
+__CPROVER_assigns(vg_cleared)
+__CPROVER_ensures(vg_cleared == __CPROVER_old(vg_cleared) + (x == vg_qi ? n : 0));
+static inline void mzd_write_bit(mzd_t *M, rci_t const row, rci_t const col, BIT const value)
+__CPROVER_requires(SHP(M) && 0 <= row && row < M->nrows && (row != vg_qi || (0 <= col && col < M->ncols)))
+__CPROVER_assigns();
+#endif
 
 mzp_t *mzp_init(rci_t length)
 __CPROVER_requires(length >= 0 && length <= VP_DIMMAX)
 __CPROVER_assigns(vg_plive)
+#ifdef VP_GHOST_INDEX
+__CPROVER_ensures(__CPROVER_is_fresh(__CPROVER_return_value, sizeof(mzp_t)) && __CPROVER_return_value->length == length && vg_plive == __CPROVER_old(vg_plive) + 1 &&
+                  __CPROVER_is_fresh(__CPROVER_return_value->values, sizeof(rci_t) * (size_t)(length > 0 ? length : 1)));
+#else
 __CPROVER_ensures(__CPROVER_is_fresh(__CPROVER_return_value, sizeof(mzp_t)) && __CPROVER_return_value->length == length && vg_plive == __CPROVER_old(vg_plive) + 1);
+#endif
 void mzp_free(mzp_t *P)
 __CPROVER_requires(PSHP(P))
 __CPROVER_assigns(vg_plive)
@@ -58,8 +78,17 @@ rci_t _mzd_pluq(mzd_t *A, mzp_t *P, mzp_t *Q, int const cutoff)
 __CPROVER_requires(PLUQ_REQ(A, P, Q, cutoff)) __CPROVER_assigns(vg_rank) __CPROVER_ensures(RANK_OK(__CPROVER_return_value, A) && vg_rank == __CPROVER_return_value);
 rci_t mzd_pluq(mzd_t *A, mzp_t *P, mzp_t *Q, int const cutoff)
 __CPROVER_requires(PLUQ_REQ(A, P, Q, cutoff)) __CPROVER_assigns(vg_rank) __CPROVER_ensures(RANK_OK(__CPROVER_return_value, A) && vg_rank == __CPROVER_return_value);
+#ifndef VP_GHOST_INDEX
 rci_t mzd_ple(mzd_t *A, mzp_t *P, mzp_t *Q, int const cutoff)
 __CPROVER_requires(PLUQ_REQ(A, P, Q, cutoff)) __CPROVER_assigns(vg_rank) __CPROVER_ensures(RANK_OK(__CPROVER_return_value, A) && vg_rank == __CPROVER_return_value);
+#else
+/* + the LAPACK range of the column permutation (property C03), at the ghost index */
+rci_t mzd_ple(mzd_t *A, mzp_t *P, mzp_t *Q, int const cutoff)
+__CPROVER_requires(PLUQ_REQ(A, P, Q, cutoff) && __CPROVER_rw_ok(Q->values, sizeof(rci_t) * (size_t)(Q->length > 0 ? Q->length : 1)))
+__CPROVER_assigns(vg_rank, __CPROVER_object_whole(Q->values))
+__CPROVER_ensures(RANK_OK(__CPROVER_return_value, A) && vg_rank == __CPROVER_return_value)
+__CPROVER_ensures((0 <= vg_qi && vg_qi < __CPROVER_return_value) ==> (Q->values[vg_qi] >= vg_qi && Q->values[vg_qi] < A->ncols));
+#endif
 
 /* public triangular solves with a left-hand triangle: conforming, B has columns; an empty triangle (rank 0) is allowed */
 #define TRSM_L0(T, B) TRSM_L(T, B)
@@ -95,6 +124,15 @@ __CPROVER_ensures(__CPROVER_return_value == NULL ==> vg_live == __CPROVER_old(vg
 __CPROVER_ensures(__CPROVER_return_value != NULL ==> (vg_live == __CPROVER_old(vg_live) + 1 && __CPROVER_return_value->nrows == A->ncols &&
                                                        __CPROVER_return_value->ncols == A->ncols - vg_rank));
 /* echelonform.c */
+#ifdef VP_GHOST_INDEX
+/* full == 0: row i < rank has exactly its first i + 1 cells (the stored L part incl. the diagonal position) cleared, then the pivot
+ * cell (i, Q[i]) set; stated for row vg_qi */
+rci_t mzd_echelonize_pluq(mzd_t *A, int full)
+__CPROVER_requires(SHP(A) && NE(A) && full == 0)
+__CPROVER_assigns(vg_live, vg_plive, vg_tri, vg_rank, vg_solved, vg_cleared)
+__CPROVER_ensures(vg_live == __CPROVER_old(vg_live) && vg_plive == __CPROVER_old(vg_plive) && RANK_OK(__CPROVER_return_value, A) && __CPROVER_return_value == vg_rank)
+__CPROVER_ensures(vg_cleared == __CPROVER_old(vg_cleared) + ((0 <= vg_qi && vg_qi < vg_rank) ? vg_qi + 1 : 0));
+#else
 rci_t mzd_echelonize_pluq(mzd_t *A, int full)
 __CPROVER_requires(SHP(A) && NE(A))
 __CPROVER_assigns(vg_live, vg_plive, vg_tri, vg_rank, vg_solved)
@@ -102,6 +140,7 @@ __CPROVER_ensures(vg_live == __CPROVER_old(vg_live) && vg_plive == __CPROVER_old
 /* full reduction: unless the rank equals the column count, the columns right of the last complete 64-column block of pivots
  * (the non-pivot block, plus the pivots sharing its first word) all go through the triangular solve, once */
 __CPROVER_ensures(full ==> vg_solved == __CPROVER_old(vg_solved) + (vg_rank == A->ncols ? 0 : A->ncols - 64 * (vg_rank / 64)));
+#endif
 
 /* ple.c / brilliantrussian.c front ends */
 rci_t _mzd_ple(mzd_t *A, mzp_t *P, mzp_t *Q, int const cutoff)
